@@ -497,8 +497,9 @@ fn check_meta(ext: &str, what: &str, m: &Meta, ctx: &mut Ctx) {
         Err(e) => {
             if e.starts_with("PANIC") {
                 ctx.violation(format!("{}:save:{ext}", e.replace("PANIC ", "")), json!({"format": ext, "varied": what, "meta": m.json()}));
-            } else if matches!(ext, "bin" | "idf") && (m.width % 2 != 0 || m.width > 510) {
+            } else if ext == "bin" && (m.width % 2 != 0 || m.width > 510) {
                 // the BinaryText record stores width / 2 in one byte: the writer has to refuse what it cannot carry
+                // (an iCE Draw file carries its width in its own header: every width it can hold can be saved with SAUCE)
                 ctx.count("variant_cannot_carry_width(refused by the writer)", 1);
                 ctx.outcome(4);
             } else if save(&doc, ext, false).is_err() {
